@@ -643,6 +643,25 @@ func (env *Env) call(x *ECall) (CVal, error) {
 		}
 		al := fc.heapGet(env.state(), "Alloc", arr(SInt, SBool))
 		return CVal{Term{fmt.Sprintf("(and (> %s 0) (select %s %s))", args[0].T.S, al.S, args[0].T.S), SBool}, nil}, nil
+	case "strof": // strof(x, "T"): the text of x's String method, T being its static type
+		if len(x.Args) != 2 {
+			return CVal{}, fmt.Errorf("strof(x, \"T\")")
+		}
+		v, err := env.eval(x.Args[0])
+		if err != nil {
+			return CVal{}, err
+		}
+		lit, ok := x.Args[1].(*ELit)
+		if !ok {
+			return CVal{}, fmt.Errorf("strof(x, \"T\")")
+		}
+		gt, _, err := fc.e.resolveType(lit.Val, env.pkg)
+		if err != nil || gt == nil {
+			return CVal{}, fmt.Errorf("strof: %v", err)
+		}
+		name := "strof$" + sanitize(shortType(gt))
+		fc.declareFun(name, []string{fc.e.sortOf(gt)}, SString)
+		return CVal{Term{"(" + name + " " + v.T.S + ")", SString}, nil}, nil
 	case "typetag": // typetag("T"): the tag interface values of dynamic type T carry
 		lit, ok := x.Args[0].(*ELit)
 		if !ok {
@@ -693,6 +712,23 @@ func (env *Env) call(x *ECall) (CVal, error) {
 			return CVal{}, fmt.Errorf("typeis: %v", err)
 		}
 		return CVal{fc.e.hasType(v.T, gt), nil}, nil
+	case "box": // box(x, "T"): x as an interface value of dynamic type T
+		if len(x.Args) != 2 {
+			return CVal{}, fmt.Errorf("box(x, \"T\")")
+		}
+		v, err := env.eval(x.Args[0])
+		if err != nil {
+			return CVal{}, err
+		}
+		lit, ok := x.Args[1].(*ELit)
+		if !ok {
+			return CVal{}, fmt.Errorf("box(x, \"T\")")
+		}
+		gt, _, err := fc.e.resolveType(lit.Val, env.pkg)
+		if err != nil || gt == nil {
+			return CVal{}, fmt.Errorf("box: %v", err)
+		}
+		return CVal{fc.e.box(v.T, gt), nil}, nil
 	case "unbox": // unbox(x, "T")
 		if len(x.Args) != 2 {
 			return CVal{}, fmt.Errorf("unbox(x, \"T\")")
@@ -713,6 +749,16 @@ func (env *Env) call(x *ECall) (CVal, error) {
 	case "smt": // smt("raw term", Sort)
 	}
 	switch x.Fn {
+	case "startsWithSpace", "endsWithSpace":
+		args, err := evalArgs()
+		if err != nil {
+			return CVal{}, err
+		}
+		re := "(re.++ ws$re re.all)"
+		if x.Fn == "endsWithSpace" {
+			re = "(re.++ re.all ws$re)"
+		}
+		return CVal{Term{"(str.in_re " + args[0].T.S + " " + re + ")", SBool}, nil}, nil
 	case "smt_in_re_decimal", "smt_in_re_timestamp":
 		args, err := evalArgs()
 		if err != nil {
@@ -778,7 +824,21 @@ var smtBuiltins = map[string]smtB{
 	"foldcase":  {"str$fold", SString, []string{SString}},
 	"lowercase": {"str$lower", SString, []string{SString}},
 	"hexu":      {"uuid$hex", SString, []string{SString}},
+	"trimspace": {"trim$", SString, []string{SString}},
+	"unquote":   {"unquote$val", SString, []string{SString}},
+	"unquoteOK": {"unquote$ok", SBool, []string{SString}},
+	"quote":     {"quote$", SString, []string{SString}},
+	"timeparse":   {"timeparse$val", STime, []string{SString, SString}},
+	"timeparseOK": {"timeparse$ok", SBool, []string{SString, SString}},
+	"parseint":     {"parseint$val", SInt, []string{SString}},
+	"parseintOK":   {"parseint$ok", SBool, []string{SString}},
+	"parsefloat":   {"parsefloat$val", SF64, []string{SString}},
+	"parsefloatOK": {"parsefloat$ok", SBool, []string{SString}},
+	"parsebool":    {"parsebool$val", SBool, []string{SString}},
+	"parseboolOK":  {"parsebool$ok", SBool, []string{SString}},
 	"itoa":      {"itoa$", SString, []string{SInt}},
+	"fmtfloat":  {"fmtfloat$", SString, []string{SF64}},
+	"fmtbytes":  {"fmtbytes$", SString, []string{SString}},
 	"timefmt":   {"timefmt$", SString, []string{STime, SString}},
 	"fmtref":    {"fmt$ref", SString, []string{SInt, SInt}},
 	"sha16":       {"sha16$", SString, []string{SString}},
